@@ -74,15 +74,24 @@ theorem table_sizes3 : a3Size = Gen.GeodSeries.A3coeff.length ∧ c3Size = Gen.G
     (mod `ε^{N+1}`) and `W = 1 + O(ε)` — this is a statement about binomial coefficients only (no table) -/
 theorem w_series : checkW (N + 1) = true := by decide +kernel
 
-/-- **A3 and C3** (Karney 2013, eq. 8, 23–25; `computeI3` of `maxima/geod.mac`).  With `f = 2n/(1 + n)` the integrand of I3 is
-    `(2 − f)/(1 + (1 − f)√(1 + k² sin²σ)) = 2(1 − ε)/((1 + n)(1 − ε) + (1 − n) W)`, and
-    `dI3/dσ = A3·(1 + Σ_{l=1}^{N−1} 2l·C3_l cos 2lσ)`.  Certified:
-    `A3·(1 + Σ_l 2l C3_l cos 2lσ) · ((1 + n)(1 − ε) + (1 − n) W) = 2(1 − ε)`
-    as trigonometric polynomials with coefficients in `ℚ[n, ε]` modulo total degree `N` — exactly the truncation
-    `jtaylor(·, n, eps, N−1)` of the generator.  The second factor has constant term 2, hence is a unit, so the
-    relation determines `A3` and every `A3·C3_l`, hence (A3 = 1 + …) every `C3_l`, modulo total degree `N`; all table
-    entries have total degree `≤ N − 1`: a full certificate of both tables. -/
-theorem a3_c3_table : checkA3C3 = true := by decide +kernel
+/-- **A3** (Karney 2013, eq. 8, 23–24; `computeI3` of `maxima/geod.mac`).  With `f = 2n/(1 + n)` the integrand of I3 is
+    `(2 − f)/(1 + (1 − f)√(1 + k² sin²σ)) = 2(1 − ε)/D`, `D = (1 + n)(1 − ε) + (1 − n) W` (`i3_integrand_form`, `k2_form`).
+    It is expanded directly: `D = 2(1 + u)`, `u = O(n, ε)`, `2(1 − ε)/D = (1 − ε) Σ_{k<N} (−u)^k` as a trigonometric polynomial
+    in `2σ` with coefficients in `ℚ[n, ε]` modulo total degree `N` — the truncation `jtaylor(·, n, eps, N−1)` of the generator.
+    Certified: the polynomial `A3(n, ε)` of `A3coeff`/`A3f` **is** the mean value (constant Fourier coefficient) of that
+    expansion.  Full certificate of the table (all its entries have total degree `≤ N − 1`). -/
+theorem a3_table : checkA3 = true := by decide +kernel
+
+/-- **C3** (Karney 2013, eq. 25).  `dI3/dσ = A3·(1 + Σ_{l=1}^{N−1} 2l·C3_l cos 2lσ)`.  Certified: for every `l = 1 … N−1`,
+    `2l·A3·C3_l` (tables `A3coeff`, `C3coeff`, layout of `C3f`) equals the coefficient of `cos 2lσ` of the expansion of
+    `a3_table`, modulo total degree `N`, and the expansion has no further harmonics.  Since `A3 = 1 + …` is a unit and is
+    itself certified, this determines every `C3_l` modulo total degree `N`: full certificate of the table. -/
+theorem c3_table : checkC3 = true := by decide +kernel
+
+/-- second, independent route to the same two tables (no series division): multiplying out the denominator,
+    `A3·(1 + Σ_l 2l C3_l cos 2lσ) · ((1 + n)(1 − ε) + (1 − n) W) = 2(1 − ε)` modulo total degree `N`.
+    The second factor has constant term 2, hence is a unit, so this relation alone also determines both tables. -/
+theorem a3_c3_relation : checkA3C3 = true := by decide +kernel
 
 /-! ### Clenshaw summation computes the trigonometric sums it stands for -/
 
